@@ -22,7 +22,7 @@
 use bytes::BufMut;
 
 use super::*;
-use crate::recv::RecvBuf;
+use crate::{recv::RecvBuf, verif_c01_glue::RcvShape};
 
 const W: u64 = 4;
 static SEQ: [u8; 8] = [0, 1, 2, 3, 4, 5, 6, 7];
@@ -34,7 +34,7 @@ fn content(from: u64, to: u64) -> Bytes {
 
 /// core's slice-index panic path builds `fmt::Arguments` at run time; the stub keeps the panic
 /// (still reported as a failed check) and drops the message.
-pub(super) fn stub_slice_index_fail(_start: usize, _end: usize, _len: usize) -> ! {
+pub(crate) fn stub_slice_index_fail(_start: usize, _end: usize, _len: usize) -> ! {
     panic!("slice index out of range")
 }
 
@@ -150,7 +150,7 @@ fn real_color(b: &SendBuf, x: u64) -> G {
 /// kept (as Lost), the following ones are merged into it, a Flighting remainder is split off at `end`.
 /// Precondition (asserted): idx_start <= len; the boundary before idx_start is Recved and starts
 /// below `end`; no Pending byte below `end`.
-pub(super) fn ref_lost_from(m: &mut BufMap, idx_start: usize, end: u64) {
+pub(crate) fn ref_lost_from(m: &mut BufMap, idx_start: usize, end: u64) {
     const MAXN: usize = verif_model::CAP; // (the container model cannot hold more boundaries)
     let n = m.0.len();
     assert!(n <= MAXN, "twin: shape within the twin's capacity");
@@ -334,12 +334,12 @@ struct World<const P: usize> {
 
 impl<const P: usize> World<P> {
     /// The application wrote `written` <= W bytes in CHUNKS (1 or 2) non-empty chunks; the peer's
-    /// stream window is symbolic (possibly smaller than what was written).
+    /// stream window is symbolic (possibly smaller than what was written, but not 0).
     fn new<const CHUNKS: usize>() -> Self {
         let t: u64 = kani::any();
         kani::assume(t >= CHUNKS as u64 && t <= W);
         let max_data: u64 = kani::any();
-        kani::assume(max_data <= LIM);
+        kani::assume(max_data >= 1 && max_data <= LIM);
         let mut snd = SendBuf::with_capacity(max_data);
         if CHUNKS == 2 {
             let a: u64 = kani::any();
@@ -349,9 +349,10 @@ impl<const P: usize> World<P> {
         } else {
             snd.write(content(0, t));
         }
+        assert!(snd.written() == t && snd.sent() == 0 && !snd.is_all_rcvd());
         let x: u64 = kani::any();
         kani::assume(x < t);
-        World {
+        let mut w = World {
             snd,
             rcv: RecvBuf::default(),
             written: t,
@@ -365,7 +366,38 @@ impl<const P: usize> World<P> {
             copies: [0; P],
             acked: [false; P],
             lost: [false; P],
+        };
+        w.shape::<1, CHUNKS>();
+        w
+    }
+
+    /// Shape of THIS harness instance at this point of the scenario: the send buffer's map has
+    /// exactly KS boundaries and its store KD chunks. The assumption selects the instance's case
+    /// (the instance family enumerates the cases; every instance has a reachability witness);
+    /// the containers are then rebuilt element by element so that their lengths are concrete
+    /// values for the symbolic execution of the next step (contents stay symbolic).
+    fn shape<const KS: usize, const KD: usize>(&mut self) {
+        kani::assume(self.snd.state.0.len() == KS && self.snd.data.len() == KD);
+        let mut st = BufMap::default();
+        let mut i = 0;
+        while i < KS {
+            st.0.push_back(self.snd.state.0[i]);
+            i += 1;
         }
+        st.1 = self.snd.state.1;
+        core::mem::forget(core::mem::replace(&mut self.snd.state, st));
+        let mut data: VecDeque<Bytes> = VecDeque::new();
+        let mut i = 0;
+        while i < KD {
+            data.push_back(self.snd.data[i].clone());
+            i += 1;
+        }
+        core::mem::forget(core::mem::replace(&mut self.snd.data, data));
+    }
+
+    /// Same for the receive buffer: exactly K stored segments.
+    fn rshape<const K: usize>(&mut self) {
+        self.rcv.c01_shape::<K>();
     }
 
     /// The colour the send buffer records for the probe byte is the one its history implies.
@@ -373,8 +405,10 @@ impl<const P: usize> World<P> {
         assert!(real_color(&self.snd, self.x) == self.g, "send buffer colour of every byte == what its history implies");
     }
 
-    /// One pick_up; the frame goes into slot r.
-    fn pick(&mut self, r: usize, allow: Option<usize>, flow_limit: usize) -> bool {
+    /// One pick_up with symbolic congestion allowance and flow limit; the frame goes into slot r.
+    fn pick(&mut self, r: usize) -> bool {
+        let allow: Option<usize> = kani::any();
+        let flow_limit: usize = kani::any();
         if let Some(a) = allow {
             kani::assume(a >= 1 && a as u64 <= LIM);
         }
@@ -404,6 +438,7 @@ impl<const P: usize> World<P> {
                 }
                 assert!(chunks.len() <= 2 && pos == total, "frame payload covers the whole range");
                 core::mem::forget(chunks);
+                assert!(range.end <= self.snd.sent(), "an emitted frame only covers bytes now recorded as sent (precondition of ack / loss feedback)");
                 let inx = self.x >= range.start && self.x < range.end;
                 if inx {
                     assert!(self.g == if fresh { G::Never } else { G::Lost }, "only never-sent or lost bytes are (re)sent; fresh iff never sent");
@@ -421,60 +456,40 @@ impl<const P: usize> World<P> {
         ok
     }
 
-    /// Frame j reaches the receiver (once more).
+    /// A copy of frame j reaches the receiver.
     fn deliver(&mut self, j: usize) {
-        if self.has[j] && self.copies[j] < 2 {
-            let (s, e) = (self.start[j], self.end[j]);
-            let largest = self.rcv.largest_offset();
-            let nread = self.rcv.nread();
-            let fresh = self.rcv.recv(s, content(s, e));
-            assert!(self.rcv.nread() == nread);
-            assert!(self.rcv.largest_offset() == if e > largest { e } else { largest }, "highest offset seen");
-            assert!(fresh == self.rcv.largest_offset() - largest, "flow-control accounting telescopes");
-            self.copies[j] += 1;
-            if self.inx[j] {
-                self.delivered_x = true;
-            }
+        assert!(self.has[j]);
+        let (s, e) = (self.start[j], self.end[j]);
+        let largest = self.rcv.largest_offset();
+        let nread = self.rcv.nread();
+        let fresh = self.rcv.recv(s, content(s, e));
+        assert!(self.rcv.nread() == nread);
+        assert!(self.rcv.largest_offset() == if e > largest { e } else { largest }, "highest offset seen");
+        assert!(fresh == self.rcv.largest_offset() - largest, "flow-control accounting telescopes");
+        self.copies[j] += 1;
+        if self.inx[j] {
+            self.delivered_x = true;
         }
     }
 
-    /// A delivery slot: a copy of ANY frame picked so far reaches the receiver (or nothing does).
-    fn deliver_slot(&mut self) {
-        let j: usize = kani::any();
-        kani::assume(j < P);
-        self.deliver(j);
-    }
-
-    /// Frame j is acknowledged (a truthful peer only acknowledges what it received; final).
+    /// Frame j is acknowledged (a truthful peer only acknowledges what it received).
     fn ack(&mut self, j: usize) {
-        if self.has[j] && !self.acked[j] && self.copies[j] >= 1 {
-            self.snd.on_data_acked(&(self.start[j]..self.end[j]));
-            self.acked[j] = true;
-            if self.inx[j] {
-                self.g = G::Acked;
-            }
+        assert!(self.has[j] && self.copies[j] >= 1);
+        self.snd.on_data_acked(&(self.start[j]..self.end[j]));
+        self.acked[j] = true;
+        if self.inx[j] {
+            self.g = G::Acked;
         }
+        self.check_color();
     }
 
-    /// Frame j is reported lost (possibly spuriously, possibly again; not after its ack).
+    /// Frame j is reported lost (possibly spuriously).
     fn lose(&mut self, j: usize) {
-        if self.has[j] && !self.acked[j] {
-            self.snd.may_loss_data(&(self.start[j]..self.end[j]));
-            self.lost[j] = true;
-            if self.inx[j] && self.g == G::Flight {
-                self.g = G::Lost;
-            }
-        }
-    }
-
-    /// A feedback slot: ANY frame picked so far is reported lost or acknowledged (or nothing).
-    fn feedback_slot(&mut self) {
-        let j: usize = kani::any();
-        kani::assume(j < P);
-        if kani::any() {
-            self.ack(j);
-        } else {
-            self.lose(j);
+        assert!(self.has[j]);
+        self.snd.may_loss_data(&(self.start[j]..self.end[j]));
+        self.lost[j] = true;
+        if self.inx[j] && self.g == G::Flight {
+            self.g = G::Lost;
         }
         self.check_color();
     }
@@ -517,7 +532,6 @@ impl<const P: usize> World<P> {
                     assert!(needs && fresh == (self.g == G::Never), "only bytes needing (re)transmission are offered");
                     self.g = G::Flight;
                 }
-                kani::cover!(!fresh, "retransmission offered");
                 core::mem::forget(chunks);
             }
             Err(_) => {
@@ -557,111 +571,215 @@ impl<const P: usize> World<P> {
         assert!(n2 as u64 == avail - n as u64);
         assert!(sink2.in_order && sink2.next == avail, "second read continues at the next byte");
         kani::cover!(n > 0 && (n as u64) < avail, "partial read");
-        kani::cover!(avail == self.written, "whole content readable");
     }
 }
 
-/// P rounds with D[r] delivery slots and F[r] feedback slots after the r-th pick_up, then the
-/// closing obligations.
-fn compose<const CHUNKS: usize, const P: usize>(d: [usize; P], f: [usize; P]) {
-    let mut w = World::<P>::new::<CHUNKS>();
-    let mut r = 0;
-    while r < P {
-        w.pick(r, kani::any(), kani::any());
-        let mut i = 0;
-        while i < d[r] {
-            w.deliver_slot();
-            i += 1;
-        }
-        let mut i = 0;
-        while i < f[r] {
-            w.feedback_slot();
-            i += 1;
-        }
-        r += 1;
+// ------------------------------------------------------------------------------------------------
+// Scenario LR (loss -> retransmission split at a different boundary -> ack):
+//   pick A = [0,a), a proper prefix of what may be sent; A is reported lost; pick B retransmits
+//   [0,b) with b < a (SPLIT2) or b == a; B is delivered; LATE: the "lost" A arrives after all
+//   (before or after B: A_FIRST) and overlaps B; B is acknowledged; closing obligations.
+
+fn scenario_lr<const CHUNKS: usize, const SPLIT2: bool, const LATE: bool, const A_FIRST: bool>() {
+    let mut w = World::<2>::new::<CHUNKS>();
+    kani::assume(w.pick(0));
+    assert!(w.start[0] == 0, "fresh data is offered from the start of the stream");
+    let n = w.snd.state.0.len();
+    assert!(n == 1 || n == 2, "shape census: first pick takes everything or splits the pending data");
+    w.shape::<2, CHUNKS>(); // A is a proper prefix
+    w.lose(0);
+    assert!(w.snd.state.0.len() == 2, "shape census");
+    w.shape::<2, CHUNKS>();
+    kani::assume(w.pick(1));
+    assert!(w.start[1] == 0 && w.end[1] <= w.end[0], "the lost frame's bytes are offered again first, possibly split");
+    let n = w.snd.state.0.len();
+    assert!(n == 2 || n == 3, "shape census");
+    if SPLIT2 {
+        w.shape::<3, CHUNKS>();
+    } else {
+        w.shape::<2, CHUNKS>();
     }
-    kani::cover!(w.has[P - 1] && w.copies[P - 1] == 2, "last frame duplicated");
-    kani::cover!(w.has[0] && w.lost[0] && w.copies[0] == 0, "first frame lost in the network and reported lost");
-    kani::cover!(P < 2 || (w.has[P - 1] && w.lost[0] && w.start[P - 1] <= w.start[0] && w.end[P - 1] > w.start[0]), "a later frame retransmits bytes of the first");
+    if LATE && A_FIRST {
+        w.deliver(0);
+        w.rshape::<1>();
+    }
+    w.deliver(1);
+    if LATE && A_FIRST {
+        assert!(w.rcv.c01_segments() == 1, "shape census: B lies inside A");
+    }
+    w.rshape::<1>();
+    if LATE && !A_FIRST {
+        w.deliver(0);
+        let k = w.rcv.c01_segments();
+        if SPLIT2 {
+            assert!(k == 2, "shape census: the part of A beyond B is stored as a second segment");
+            w.rshape::<2>();
+        } else {
+            assert!(k == 1, "shape census: exact duplicate");
+            w.rshape::<1>();
+        }
+    }
+    w.ack(1);
+    let n = w.snd.state.0.len();
+    if SPLIT2 {
+        assert!(n == 2 && w.snd.data.len() == CHUNKS || CHUNKS == 2 && w.snd.data.len() == 1, "shape census");
+    }
     let all = w.check_completion();
-    kani::cover!(all, "everything acknowledged");
+    assert!(!all, "bytes behind A were never sent");
     w.progress_pick();
     w.reader();
+    kani::cover!(w.copies[1] == 1, "scenario reachable");
+    kani::cover!(w.x >= w.end[1] && w.x < w.end[0], "probe byte in the part of A that B did not retransmit");
     core::mem::forget(w);
 }
 
-macro_rules! compose_harness {
-    ($name:ident, $c:literal, $p:literal, $d:expr, $f:expr) => {
-        #[kani::proof]
-        #[kani::unwind(6)]
-        #[kani::stub(core::slice::index::slice_index_fail, stub_slice_index_fail)]
-        #[kani::stub(BufMap::may_lost_from, ref_lost_from)]
-        fn $name() {
-            compose::<$c, $p>($d, $f);
-        }
-    };
-}
+// Scenario RO (reordering + duplication + completion):
+//   pick A = [0,a) proper prefix, pick B = [a,b) fresh; delivered as B, A, B (reordered, B
+//   duplicated); A and B acknowledged (B first); ALL: B reaches the end of the written data, so
+//   everything is acknowledged and readable.
 
-compose_harness!(c01_compose_c1p1, 1, 1, [2], [1]);
-compose_harness!(c01_compose_c2p1, 2, 1, [2], [1]);
-compose_harness!(c01_compose_c1p2, 1, 2, [1, 2], [1, 2]);
-compose_harness!(c01_compose_c1p3, 1, 3, [1, 1, 2], [1, 1, 2]);
-
-// ------------------------------------------------------------------------------------------------
-// Sender half: the same world without the receiver. Whether a frame reached the peer is a free
-// boolean (so every ack / loss pattern of the full world is included); deeper schedules are
-// affordable. Guarantees to the receiver half: every emitted frame is (range inside the written
-// data, payload == SEQ[range]) — asserted in `pick`.
-
-fn send_half<const CHUNKS: usize, const P: usize>(f: [usize; P]) {
-    let mut w = World::<P>::new::<CHUNKS>();
-    let mut r = 0;
-    while r < P {
-        w.pick(r, kani::any(), kani::any());
-        let mut i = 0;
-        while i < f[r] {
-            let j: usize = kani::any();
-            kani::assume(j < P);
-            if kani::any() && w.has[j] {
-                w.copies[j] = 1;
-                if w.inx[j] {
-                    w.delivered_x = true;
-                }
-            }
-            w.feedback_slot();
-            i += 1;
-        }
-        r += 1;
+fn scenario_ro<const CHUNKS: usize, const ALL: bool>() {
+    let mut w = World::<2>::new::<CHUNKS>();
+    kani::assume(w.pick(0));
+    w.shape::<2, CHUNKS>(); // A is a proper prefix
+    kani::assume(w.pick(1));
+    assert!(w.start[1] == w.end[0], "fresh data continues where the previous frame ended");
+    let n = w.snd.state.0.len();
+    assert!(n == 1 || n == 2, "shape census: in-flight frames merge; pending rest or not");
+    if ALL {
+        w.shape::<1, CHUNKS>();
+    } else {
+        w.shape::<2, CHUNKS>();
     }
-    kani::cover!(w.has[0] && w.lost[0] && w.acked[0], "ack after a (spurious) loss report");
-    kani::cover!(P < 2 || (w.has[P - 1] && w.lost[0] && w.start[P - 1] <= w.start[0] && w.end[P - 1] > w.start[0]), "a later frame retransmits bytes of the first");
+    w.deliver(1);
+    w.rshape::<1>();
+    w.deliver(0);
+    assert!(w.rcv.c01_segments() == 2, "shape census: adjacent segments are kept separately");
+    w.rshape::<2>();
+    w.deliver(1);
+    assert!(w.rcv.c01_segments() == 2, "shape census: duplicate stores nothing");
+    w.rshape::<2>();
+    w.ack(1);
+    let n = w.snd.state.0.len();
+    assert!(n == 2 || n == 3, "shape census");
+    if ALL {
+        w.shape::<2, CHUNKS>();
+    } else {
+        w.shape::<3, CHUNKS>();
+    }
+    assert!(!w.check_completion(), "A is still unacknowledged");
+    w.ack(0);
     let all = w.check_completion();
-    kani::cover!(all, "everything acknowledged");
+    if ALL {
+        assert!(w.end[1] == w.written || w.end[1] == w.snd.max_data());
+    }
+    kani::cover!(all, "everything acknowledged: flush may complete");
+    kani::cover!(!all, "window smaller than the written data: not complete");
     w.progress_pick();
+    let avail = w.rcv.available();
+    assert!(avail == w.end[1], "everything delivered is readable");
+    w.reader();
+    kani::cover!(w.copies[1] == 2, "scenario reachable");
     core::mem::forget(w);
 }
 
-macro_rules! send_harness {
-    ($name:ident, $c:literal, $p:literal, $f:expr) => {
+// Scenario MIN (smallest full chain): pick A (everything that may be sent: WHOLE, or a proper
+// prefix), A arrives twice (duplicate), A is acknowledged; closing obligations incl. the reader.
+
+fn scenario_min<const CHUNKS: usize, const WHOLE: bool>() {
+    let mut w = World::<1>::new::<CHUNKS>();
+    kani::assume(w.pick(0));
+    assert!(w.start[0] == 0, "fresh data is offered from the start of the stream");
+    let n = w.snd.state.0.len();
+    assert!(n == 1 || n == 2, "shape census: first pick takes everything or splits the pending data");
+    if WHOLE {
+        w.shape::<1, CHUNKS>();
+    } else {
+        w.shape::<2, CHUNKS>();
+    }
+    w.deliver(0);
+    w.rshape::<1>();
+    w.deliver(0);
+    assert!(w.rcv.c01_segments() == 1, "shape census: a duplicate stores nothing");
+    w.rshape::<1>();
+    w.ack(0);
+    let all = w.check_completion();
+    if !WHOLE {
+        assert!(!all, "bytes behind A were never sent");
+    }
+    kani::cover!(all, "everything acknowledged: flush may complete");
+    kani::cover!(!all, "more to send");
+    w.progress_pick();
+    assert!(w.rcv.available() == w.end[0], "everything delivered is readable");
+    w.reader();
+    kani::cover!(w.copies[0] == 2, "scenario reachable");
+    core::mem::forget(w);
+}
+
+// Sender-only variant of scenario LR (no receiver: whether B reached the peer is implied by its ack).
+fn scenario_send_lr<const CHUNKS: usize, const SPLIT2: bool>() {
+    let mut w = World::<2>::new::<CHUNKS>();
+    kani::assume(w.pick(0));
+    let n = w.snd.state.0.len();
+    assert!(n == 1 || n == 2, "shape census");
+    w.shape::<2, CHUNKS>(); // A is a proper prefix
+    w.lose(0);
+    assert!(w.snd.state.0.len() == 2, "shape census");
+    w.shape::<2, CHUNKS>();
+    kani::assume(w.pick(1));
+    assert!(w.start[1] == 0 && w.end[1] <= w.end[0], "the lost frame's bytes are offered again first, possibly split");
+    let n = w.snd.state.0.len();
+    assert!(n == 2 || n == 3, "shape census");
+    if SPLIT2 {
+        w.shape::<3, CHUNKS>();
+    } else {
+        w.shape::<2, CHUNKS>();
+    }
+    w.copies[1] = 1;
+    if w.inx[1] {
+        w.delivered_x = true;
+    }
+    w.ack(1);
+    let all = w.check_completion();
+    assert!(!all, "bytes behind A were never sent");
+    w.progress_pick();
+    kani::cover!(w.acked[1], "scenario reachable");
+    kani::cover!(w.x >= w.end[1] && w.x < w.end[0], "probe byte in the part of A that B did not retransmit");
+    core::mem::forget(w);
+}
+
+macro_rules! scenario_harness {
+    ($name:ident, $call:expr) => {
         #[kani::proof]
         #[kani::unwind(6)]
         #[kani::stub(core::slice::index::slice_index_fail, stub_slice_index_fail)]
         #[kani::stub(BufMap::may_lost_from, ref_lost_from)]
         fn $name() {
-            send_half::<$c, $p>($f);
+            $call;
         }
     };
 }
 
-send_harness!(c01_send_c1p1, 1, 1, [2]);
-send_harness!(c01_send_c1p2, 1, 2, [1, 2]);
-send_harness!(c01_send_c2p2, 2, 2, [1, 2]);
-send_harness!(c01_send_c1p3, 1, 3, [1, 1, 2]);
+scenario_harness!(c01_compose_min_c1_whole, scenario_min::<1, true>());
+scenario_harness!(c01_compose_min_c1_split, scenario_min::<1, false>());
+scenario_harness!(c01_compose_min_c2_split, scenario_min::<2, false>());
+scenario_harness!(c01_send_lr_c1_split, scenario_send_lr::<1, true>());
+scenario_harness!(c01_send_lr_c1_whole, scenario_send_lr::<1, false>());
+scenario_harness!(c01_send_lr_c2_split, scenario_send_lr::<2, true>());
+scenario_harness!(c01_compose_lr_c1_split, scenario_lr::<1, true, false, false>());
+scenario_harness!(c01_compose_lr_c1_whole, scenario_lr::<1, false, false, false>());
+scenario_harness!(c01_compose_lr_c1_split_late, scenario_lr::<1, true, true, false>());
+scenario_harness!(c01_compose_lr_c1_split_early, scenario_lr::<1, true, true, true>());
+scenario_harness!(c01_compose_lr_c2_split_late, scenario_lr::<2, true, true, false>());
+scenario_harness!(c01_compose_ro_c1_all, scenario_ro::<1, true>());
+scenario_harness!(c01_compose_ro_c1_rest, scenario_ro::<1, false>());
+scenario_harness!(c01_compose_ro_c2_all, scenario_ro::<2, true>());
 
 // ------------------------------------------------------------------------------------------------
-// Receiver half: K arbitrary frames (range inside the written data, payload == SEQ[range]) in
-// arbitrary order with arbitrary overlaps / duplicates — a superset of whatever the sender half
-// emits under any fault schedule — delivered one after the other to a fresh RecvBuf, then the reader.
+// Receiver half with SYMBOLIC shapes: K arbitrary frames (range inside the written data, payload
+// == SEQ[range]) in arbitrary order with arbitrary overlaps / duplicates — a superset of whatever
+// the sender emits under any fault schedule — delivered one after the other to a fresh RecvBuf,
+// then the reader.
 
 fn recv_half<const K: usize>() {
     let t: u64 = kani::any();
@@ -701,6 +819,7 @@ fn recv_half<const K: usize>() {
         lost: [],
     };
     w.reader();
+    kani::cover!(w.rcv.nread() == t, "whole content read");
     core::mem::forget(w);
 }
 
@@ -718,179 +837,3 @@ macro_rules! recv_harness {
 recv_harness!(c01_recv_k1, 1);
 recv_harness!(c01_recv_k2, 2);
 recv_harness!(c01_recv_k3, 3);
-
-// ------------------------------------------------------------------------------------------------
-// Sender half at the BufMap level (the retransmission logic proper: which bytes are offered when).
-// Same ghost colour oracle and the same fault schedules as `send_half`, on the real
-// `BufMap::{extend_to, pick, ack_rcvd, shift, may_loss, sent}` without SendBuf's chunk store
-// (pure integer state: deeper schedules are affordable). `SendBuf::{write, pick_up, on_data_acked,
-// may_loss_data}` are thin wrappers: write = extend_to(min(written, max_data)) + store chunk;
-// pick_up = pick(.., max_data) + slice chunks; on_data_acked = ack_rcvd + shift + drop chunks;
-// may_loss_data = may_loss. The wrappers themselves run in `send_half` / `compose` (small shapes)
-// and one step at a time in C09.
-
-struct MapWorld<const P: usize> {
-    m: BufMap,
-    written: u64,
-    window: u64,
-    x: u64,
-    g: G,
-    has: [bool; P],
-    start: [u64; P],
-    end: [u64; P],
-    inx: [bool; P],
-    acked: [bool; P],
-    lost: [bool; P],
-}
-
-fn map_color(m: &BufMap, x: u64) -> G {
-    if x >= m.size() {
-        return G::Never;
-    }
-    let mut c = Color::Recved;
-    let n = m.0.len();
-    let mut i = 0;
-    while i < n {
-        let s = m.0[i];
-        if s.offset() <= x {
-            c = s.color();
-        }
-        i += 1;
-    }
-    match c {
-        Color::Pending => G::Never,
-        Color::Flighting => G::Flight,
-        Color::Lost => G::Lost,
-        Color::Recved => G::Acked,
-    }
-}
-
-impl<const P: usize> MapWorld<P> {
-    fn new() -> Self {
-        let t: u64 = kani::any();
-        kani::assume(t >= 1 && t <= W);
-        let window: u64 = kani::any();
-        kani::assume(window <= LIM);
-        let mut m = BufMap::default();
-        m.extend_to(if t < window { t } else { window });
-        let x: u64 = kani::any();
-        kani::assume(x < t);
-        MapWorld { m, written: t, window, x, g: G::Never, has: [false; P], start: [0; P], end: [0; P], inx: [false; P], acked: [false; P], lost: [false; P] }
-    }
-
-    fn check_color(&self) {
-        assert!(map_color(&self.m, self.x) == self.g, "send buffer colour of every byte == what its history implies");
-    }
-
-    fn pick(&mut self, r: usize, allow: Option<usize>, flow_limit: usize) {
-        if let Some(a) = allow {
-            kani::assume(a >= 1 && a as u64 <= LIM);
-        }
-        if let Ok((range, fresh)) = self.m.pick(|_| allow, flow_limit, self.window) {
-            assert!(range.start < range.end && range.end <= self.written && range.end <= self.window, "a frame carries written bytes inside the peer's window");
-            let total = range.end - range.start;
-            if let Some(a) = allow {
-                assert!(total <= a as u64, "congestion allowance respected");
-            }
-            if fresh {
-                assert!(total <= flow_limit as u64, "fresh data respects the connection flow limit");
-            }
-            let inx = self.x >= range.start && self.x < range.end;
-            if inx {
-                assert!(self.g == if fresh { G::Never } else { G::Lost }, "only never-sent or lost bytes are (re)sent; fresh iff never sent");
-                self.g = G::Flight;
-            }
-            self.has[r] = true;
-            self.start[r] = range.start;
-            self.end[r] = range.end;
-            self.inx[r] = inx;
-        }
-        self.check_color();
-    }
-
-    fn feedback_slot(&mut self) {
-        let j: usize = kani::any();
-        kani::assume(j < P);
-        if self.has[j] && !self.acked[j] {
-            let range = self.start[j]..self.end[j];
-            if kani::any() {
-                self.m.ack_rcvd(&range);
-                self.m.shift();
-                self.acked[j] = true;
-                if self.inx[j] {
-                    self.g = G::Acked;
-                }
-            } else {
-                self.m.may_loss(&range);
-                self.lost[j] = true;
-                if self.inx[j] && self.g == G::Flight {
-                    self.g = G::Lost;
-                }
-            }
-        }
-        self.check_color();
-    }
-
-    fn finish(mut self) {
-        let x = self.x;
-        // completion: the acked prefix mark reaches the end exactly when everything was acked
-        let mark = self.m.shift();
-        let size = self.m.size();
-        assert!(mark <= size && size == if self.written < self.window { self.written } else { self.window });
-        if x < mark {
-            assert!(self.g == G::Acked, "only acknowledged bytes lie below the acked-prefix mark");
-        }
-        if x == mark {
-            assert!(self.g != G::Acked, "the byte at the acked-prefix mark is unacknowledged");
-        }
-        kani::cover!(mark == self.written, "everything acknowledged");
-        // bounded progress
-        let needs = (self.g == G::Lost || self.g == G::Never) && x < self.window;
-        match self.m.pick(|_| Some(W as usize), W as usize, self.window) {
-            Ok((range, fresh)) => {
-                if needs {
-                    assert!(range.start <= x, "lowest byte needing (re)transmission is offered first");
-                }
-                if x >= range.start && x < range.end {
-                    assert!(needs && fresh == (self.g == G::Never), "only bytes needing (re)transmission are offered");
-                    self.g = G::Flight;
-                }
-                kani::cover!(!fresh, "retransmission offered");
-            }
-            Err(_) => assert!(!needs, "a lost or never-sent byte inside the window is offered by the next pick with sufficient limits"),
-        }
-        self.check_color();
-    }
-}
-
-fn map_half<const P: usize>(f: [usize; P]) {
-    let mut w = MapWorld::<P>::new();
-    let mut r = 0;
-    while r < P {
-        w.pick(r, kani::any(), kani::any());
-        let mut i = 0;
-        while i < f[r] {
-            w.feedback_slot();
-            i += 1;
-        }
-        r += 1;
-    }
-    kani::cover!(w.has[0] && w.lost[0] && w.acked[0], "ack after a (spurious) loss report");
-    kani::cover!(P < 2 || (w.has[P - 1] && w.lost[0] && w.start[P - 1] <= w.start[0] && w.end[P - 1] > w.start[0]), "a later frame retransmits bytes of the first");
-    w.finish();
-}
-
-macro_rules! map_harness {
-    ($name:ident, $p:literal, $f:expr) => {
-        #[kani::proof]
-        #[kani::unwind(6)]
-        #[kani::stub(BufMap::may_lost_from, ref_lost_from)]
-        fn $name() {
-            map_half::<$p>($f);
-        }
-    };
-}
-
-map_harness!(c01_map_p1, 1, [2]);
-map_harness!(c01_map_p2, 2, [1, 2]);
-map_harness!(c01_map_p3, 3, [1, 1, 2]);
